@@ -59,12 +59,24 @@ def with_tree(name, prepare, props, tier="quick"):
     return res
 
 
+def merge_results(name, summary):
+    path = os.path.join(ROOT, "build", "selftest", name)
+    old = {e["id"]: e for e in json.load(open(path))} if os.path.exists(path) else {}
+    for e in summary:
+        old[e["id"]] = e
+    json.dump(sorted(old.values(), key=lambda e: e["id"]), open(path, "w"), indent=1)
+
+
 def revert_fixes(ids):
     kf = json.load(open(os.path.join(ROOT, "known_findings.json")))
     fixed = [f for f in kf if f["status"] == "fixed" and (not ids or f["id"] in ids)]
 
     def one(f):
         def prep(wt):
+            for c in f.get("also_revert", []):   # later fixes that touch the same lines come off first
+                r = sh("git -C %s show %s -- . ':!*_test.go' | git -C %s apply -R" % (wt, c, wt))
+                if r.returncode:
+                    return r
             return sh("git -C %s show %s -- . ':!*_test.go' | git -C %s apply -R" % (wt, f["commit"], wt))
         return f, with_tree(f["id"], prep, [f["property"]] + f.get("also", []))
     with concurrent.futures.ThreadPoolExecutor(4) as ex:
@@ -79,7 +91,7 @@ def revert_fixes(ids):
         summary.append({"id": f["id"], "commit": f["commit"], "caught": caught, "failing_input": withinput, "result": r})
         print("%-14s %s caught=%s failing-input=%s %s" % (f["id"], f["commit"], caught, withinput, r.get("error", "")))
     os.makedirs(os.path.join(ROOT, "build", "selftest"), exist_ok=True)
-    json.dump(summary, open(os.path.join(ROOT, "build", "selftest", "revert-fixes.json"), "w"), indent=1)
+    merge_results("revert-fixes.json", summary)
     return ok
 
 
@@ -103,7 +115,7 @@ def seeded(ids):
         allok &= caught
         summary.append({"id": n, "property": meta["property"], "caught": caught, "failing_input": withinput, "result": r})
         print("%-28s %s caught=%s failing-input=%s %s" % (n, meta["property"], caught, withinput, r.get("error", "")))
-    json.dump(summary, open(os.path.join(ROOT, "build", "selftest", "seeded.json"), "w"), indent=1)
+    merge_results("seeded.json", summary)
     return allok
 
 
@@ -161,8 +173,39 @@ def import_seed(prop, k):
     return True
 
 
+def build_corpus():
+    """corpus/<prop>.cases: the failing inputs the checks reported for reverted fixes and seeded changes
+    (minimal cases first on every run, whatever the seed)."""
+    cases = {}
+    for name in ("revert-fixes.json", "seeded.json"):
+        path = os.path.join(ROOT, "build", "selftest", name)
+        if not os.path.exists(path):
+            continue
+        for e in json.load(open(path)):
+            for prop, c in e["result"].get("checks", {}).items():
+                rp = c.get("replay") or {}
+                if rp.get("kind") == "failing-input":
+                    for line in rp.get("cases", []):
+                        if len(line) < 6000:
+                            cases.setdefault(prop, []).append((e["id"], line))
+    os.makedirs(os.path.join(ROOT, "corpus"), exist_ok=True)
+    for prop, items in cases.items():
+        path = os.path.join(ROOT, "corpus", prop + ".cases")
+        old = open(path).read().split("\n") if os.path.exists(path) else []
+        seen = set(l for l in old if l and not l.startswith("%"))
+        with open(path, "a") as f:
+            for ident, line in items:
+                if line not in seen:
+                    seen.add(line)
+                    f.write("%% failing input reported when %s was applied\n%s\n" % (ident, line))
+    print({p: len(v) for p, v in cases.items()})
+
+
 if __name__ == "__main__":
     mode = sys.argv[1]
+    if mode == "corpus":
+        build_corpus()
+        sys.exit(0)
     if mode == "import-seed":
         ok = all([import_seed(sys.argv[2], k) for k in sys.argv[3:]])
     else:
